@@ -70,7 +70,8 @@ def svcRepJson (r : SvcRep Json Json) : Json :=
   Json.mkObj <|
     [("iid", jnat? r.iid), ("type", Json.str r.typ),
      ("characteristics", Json.arr (r.chars.map charRepJson).toArray)] ++
-    (match r.primary with | none => [] | some b => [("primary", Json.bool b)])
+    (match r.primary with | none => [] | some b => [("primary", Json.bool b)]) ++
+    (if r.linked.isEmpty then [] else [("linked", Json.arr (r.linked.map jnat?).toArray)])
 
 def accRepJson (r : AccRep Json Json) : Json :=
   Json.mkObj [("aid", jnat? r.aid), ("services", Json.arr (r.services.map svcRepJson).toArray)]
@@ -354,7 +355,8 @@ def svcOf (j : Json) : R (Service Json Json) := do
   let primary := match optField j "primary" with
     | some (.bool b) => some b
     | _ => none
-  pure { obj := ← getNat j "obj", typ := ← getStr j "type", chars := chars, primary := primary }
+  let linked ← ((j.getObjValD "linked").getArr?.toOption.getD #[]).toList.mapM asNat
+  pure { obj := ← getNat j "obj", typ := ← getStr j "type", chars := chars, primary := primary, linked := linked }
 
 def iidmOf (pairs : List (Nat × Nat)) (counter : Option Nat := none) : Iid :=
   { counter := counter.getD (pairs.foldl (fun m p => max m p.2) 0),
@@ -405,6 +407,7 @@ def op11Of (j : Json) : R (Op11 Json Json) := do
   | "setGetter" => pure (.setGetter (← getNat j "obj") (← getBool j "on"))
   | "setAvailable" => pure (.setAvailable (← getNat j "aid") (← getBool j "on"))
   | "setPrimary" => pure (.setPrimary (← getNat j "aid") (← getStr j "type"))
+  | "addLinked" => pure (.addLinked (← getNat j "aid") (← getNat j "svc") (← getNat j "other"))
   | "readAll" => pure (.readAll (← getBool j "incl") (← gByKey (← getArr j "g")))
   | "readChars" =>
     let ids ← (← getArr j "ids").toList.mapM pairOf
